@@ -6,6 +6,8 @@ scaffold ends; oracle: identity of scaffolds by name + zero statistics.
 """
 
 import math
+import os
+from pathlib import Path
 
 from vf import workloads
 from vf.core import rng_for, scaffold_len
@@ -199,10 +201,89 @@ def run(shard, ctx):
         for lab in case["labels"]:
             ctx.count(f"label:{lab}")
         oracle(case, workloads.run_case(case), ctx)
+        if i % 25 == 0:
+            check_cli(case, ctx, Path(os.environ.get("VERIF_SHARD_SCRATCH", ".")) / "cli")
+
+
+def check_cli(case, ctx, scratch):
+    """The same null map through the pretext-to-asm CLI (AGP in, AGP out): it completes, writes exactly one
+    assembly file - the input's scaffolds - and the info YAML / log report zero cuts, breaks and joins."""
+    import re
+    import shutil
+
+    import yaml
+
+    from vf import cli_runs
+    from vf.gen import pv as gpv
+    from vf.ref import agp_ref
+
+    ctx.case()
+    d = Path(scratch)
+    if d.exists():
+        shutil.rmtree(d)
+    d.mkdir(parents=True)
+    (d / "input.agp").write_text(agp_ref.format({"header": [], "scaffolds": case["input"]}))
+    (d / "pretext.agp").write_text(gpv.pretext_agp_text(case["pretext"], case["t"]))
+    cr = {"dir": d, "assembly_file": d / "input.agp", "pretext_file": d / "pretext.agp", "prefix": case["prefix"], "t": case["t"], "input": case["input"],
+          "pretext": case["pretext"], "labels": case["labels"]}
+    res = cli_runs.run_pretext_to_asm(cr, out_name="out.agp")
+    rc = {**cli_runs.case_of(cr), "painted": case["painted"], "hapnames": case["hapnames"]}
+    ctx.nontrivial(rc["files"])
+    try:
+        if res["exit_code"] != 0:
+            ctx.violation("cli-null-map-failed", f"exit {res['exit_code']}: {res['exception']!r} {res['stderr'][-300:]}", rc)
+            return
+        files = cli_runs.output_files(cr)
+        asm_files = sorted(n for n in files if n.endswith(".agp"))
+        if len(asm_files) != 1:
+            ctx.violation("cli-other-output-assembly-produced", f"assembly files {asm_files}", rc)
+            return
+        got = agp_ref.parse(files[asm_files[0]].decode())[0]["scaffolds"]
+
+        def sig(rows):
+            rows = [r for r in rows]
+            while rows and rows[0][0] == "G":
+                rows.pop(0)
+            while rows and rows[-1][0] == "G":
+                rows.pop()
+            return [[*r[:5]] if r[0] == "F" else list(r) for r in rows]
+
+        a = sorted(sig(s_[1]) for s_ in case["input"])
+        b = sorted(sig(s_[1]) for s_ in got)
+        if a != b or (not case["painted"] and sorted(s_[0] for s_ in got) != sorted(s_[0] for s_ in case["input"])):
+            ctx.violation("cli-scaffold-content-differs", f"file {asm_files[0]}: {[s_[0] for s_ in got]} vs input {[s_[0] for s_ in case['input']]}", rc)
+            return
+        info = yaml.safe_load(files["out.info.yaml"].decode()) if "out.info.yaml" in files else None
+        log = files.get("out.log", b"").decode()
+        m = re.search(r"Curation made (\d+) cuts? in (?:a )?contigs?, (\d+) breaks? at (?:a )?gaps? and (\d+) joins?", log)
+        if info is None or m is None:
+            ctx.violation("cli-statistics-not-reported", f"info.yaml present={info is not None}, 'Curation made' line in log={m is not None}; files={sorted(files)}", rc)
+            return
+        per = list((info.get("assemblies") or {}).values())
+        tot = [sum(int(p_.get(k, 0)) for p_ in per if isinstance(p_, dict)) for k in ("manual_breaks", "manual_joins")]
+        if tuple(int(x) for x in m.groups()) != (0, 0, 0) or any(tot) or info.get("manual_haplotig_removals") != 0:
+            ctx.violation("cli-statistics-not-zero", f"log {m.groups()}, info.yaml {info}", rc)
+            return
+        ctx.count("cli-null-ok:" + ("painted" if case["painted"] else "unpainted"))
+    finally:
+        shutil.rmtree(d, ignore_errors=True)
 
 
 def replay(case, ctx):
+    if case.get("kind") == "cli":
+        import base64
+
+        inp = agp_ref_parse(base64.b64decode(case["files"]["input.agp"]).decode())
+        c2 = {"input": case["input"], "pretext": case["pretext"], "t": case["t"], "prefix": case.get("prefix", "SUPER_"), "labels": case.get("labels") or [],
+              "painted": case.get("painted", False), "hapnames": case.get("hapnames", False)}
+        return check_cli(c2, ctx, Path(os.environ.get("VERIF_SHARD_SCRATCH", ".")) / "replay")
     oracle(case, workloads.run_case(case), ctx)
+
+
+def agp_ref_parse(text):
+    from vf.ref import agp_ref
+
+    return agp_ref.parse(text)[0]["scaffolds"]
 
 
 def plan(tier, seed):
@@ -214,6 +295,8 @@ def gates(c, tier):
     need = {
         "null-ok:unpainted": 1500,
         "null-ok:painted": 1500,
+        "cli-null-ok:painted": 300,
+        "cli-null-ok:unpainted": 300,
         "label:null:bait-undershoots": 500,
         "label:null:bait-overshoots": 500,
         "label:null:subtexel-absent": 100,
